@@ -19,6 +19,54 @@ class Inconclusive(Exception):
     """raised by a harness that cannot judge (e.g. the state representation it presets no longer matches the code): never a violation"""
 
 
+UNMODELLED = []      # what the code under test asked of a contract stub that the stub does not model (in this process)
+
+
+def unmodelled(what):
+    """called by a contract stub when the code under test uses a part of the stubbed library's API that the stub does not model: the obligation cannot be
+    judged on this path.  The request is recorded (the code under test may swallow the exception) and the replay / witness run turns any outcome of a run
+    in which this happened into INCONCLUSIVE - never into a violation."""
+    UNMODELLED.append(what)
+    raise Inconclusive('contract stub: %s is not modelled' % what)
+
+
+def unmodelled_attr(prefix, name):
+    """for the __getattr__ of a stub: private / dunder probes (copy, pickle, hasattr) get the ordinary AttributeError"""
+    if name.startswith('_'):
+        raise AttributeError(name)
+    unmodelled(prefix + name)
+
+
+class stubbed(object):
+    """context manager installing contract stubs over names of modules of the code under test: entries (module name, attribute, fake[, optional]).
+    If the module no longer refers to the library by that name the stub cannot be installed: the obligation is INCONCLUSIVE (or, for an optional entry -
+    a name the module may simply have stopped using - runs without that stub).  Never a violation."""
+
+    def __init__(self, entries):
+        self.entries = entries
+        self.saved = []
+
+    def __enter__(self):
+        for e in self.entries:
+            modname, attr, fake = e[0], e[1], e[2]
+            optional = len(e) > 3 and e[3]
+            mod = sys.modules.get(modname)
+            if mod is None or not hasattr(mod, attr):
+                if optional and mod is not None:
+                    continue
+                self.__exit__()
+                raise Inconclusive('cannot install the contract stub: %s has no name %r any more' % (modname, attr))
+            self.saved.append((mod, attr, getattr(mod, attr)))
+            setattr(mod, attr, fake)
+        return self
+
+    def __exit__(self, *a):
+        for mod, attr, val in reversed(self.saved):
+            setattr(mod, attr, val)
+        self.saved = []
+        return False
+
+
 def fail(**kw):
     """record what was observed / expected and return False (the harness verdict)"""
     DETAIL.clear()
